@@ -76,9 +76,9 @@ func (f *Faults) upCount() int {
 	return c
 }
 
-func (f *Faults) maybeInject() {
+// expire ends stalls and full-disk episodes whose time is up (called on every loop turn).
+func (f *Faults) expire() {
 	w := f.w
-	// end stalls whose time is up
 	now := time.Now()
 	for i, t := range f.stalledUntil {
 		if !t.IsZero() && !now.Before(t) {
@@ -96,6 +96,10 @@ func (f *Faults) maybeInject() {
 			w.event("disk_full s%d ends", i)
 		}
 	}
+}
+
+func (f *Faults) maybeInject() {
+	w := f.w
 	if f.total == 0 || w.cfg.FaultEvery <= 0 {
 		return
 	}
@@ -182,6 +186,7 @@ func (f *Faults) inject(kind string) {
 		w.event("fault asym partition s%d out=%v", a.idx, out)
 	case "heal":
 		if w.net.anyBlocked() {
+			w.or.onHeal()
 			w.net.heal()
 			w.stats.fault("heal")
 			w.event("fault heal")
@@ -270,6 +275,9 @@ func (f *Faults) scheduleRestartOnCrash(n *Node) {}
 // quiet clears every fault so that the liveness oracles can run.
 func (f *Faults) quiet() {
 	w := f.w
+	if w.net.anyBlocked() {
+		w.or.onHeal()
+	}
 	w.net.quiet()
 	for i, n := range w.nodes {
 		n.disk.failAll = false
